@@ -143,7 +143,7 @@ def run(module_path: str, cfg: str, env: dict | None = None, workers: int | str 
             f.write(cfg)
         libs = os.pathsep.join([os.path.dirname(module_path), SPEC, os.path.join(SPEC, "mc"),
                                 os.path.join(SPEC, "gen"), os.path.join(SPEC, "trace")])
-        cmd = ["java", "-XX:+UseParallelGC", "-Xmx" + heap, "-DTLA-Library=" + libs]
+        cmd = ["java", "-XX:+UseParallelGC", "-Xmx" + heap, "-Xss128m", "-DTLA-Library=" + libs]
         if depth_first:
             cmd.append("-Dtlc2.tool.queue.IStateQueue=StateDeque")
         cmd += ["-cp", JAR + ":" + CM, "tlc2.TLC", "-workers", str(workers),
